@@ -493,7 +493,11 @@ func (ms *MidState) reviseFileContractElement(fce types.FileContractElement, rev
 
 func (ms *MidState) resolveFileContractElement(fce types.FileContractElement, valid bool, txid types.TransactionID) {
 	fced := ms.recordFileContractElement(fce.ID)
-	fced.FileContractElement = fce.Copy()
+	if !fced.Created && fced.Revision == nil {
+		// first touch in this block; otherwise keep the element as it was
+		// before the block (fce may already reflect an in-block revision)
+		fced.FileContractElement = fce.Copy()
+	}
 	fced.Resolved = true
 	fced.Valid = valid
 	ms.spends[fce.ID] = txid
